@@ -249,6 +249,76 @@ def stage_accessor_caches(ctx: Ctx, progs):
                           {'start_src': src, 'op': edits.op_brief(op), 'src_now': root.src, **bad})
 
 
+SWEEP_PROGS = [
+    "match v:\n    case [\n         a | b | c,\n         d]:\n        pass\n    case C(\n         x | y | z):\n        pass\n    case {'k':\n         1 | 2 | 3}:\n        pass\n",
+    'r = a if(b)else c\ns = not(a)\nfor i in(j):\n    pass\nt = [i for i in(j)if(k)]\nu = (a)if(b)else(c)\nv = (a)and(b)and(c)\nw = (\n  a\n) + (b)\n',
+    'x = [\n     a, b,\n     c]\ny = {\n     k: v,\n     **r}\nz = f(\n      a,\n      *b, k=c)\ndel (\n     p), q\n',
+    'def f(\n      a, b=1, *c, d, **e): pass\nclass C(\n        A, B, metaclass=M): pass\nwith (\n      a as b,\n      c): pass\nimport (a)if 0 else b\n'.replace('import (a)if 0 else b\n', 'from m import (\n       a,\n       b as c)\nglobal g, h, i\n'),
+]
+
+
+def stage_slice_sweep(ctx: Ctx):
+    """deterministic: every element of every list field of a set of layouts (children on a later line at the column of the parent, parentheses glued to
+    keywords) deleted / inserted before / replaced, and every parenthesized node unparenthesized (and parenthesized again): all queries on all nodes vs a fresh tree,
+    with the caches of the whole tree warmed before the edit"""
+    import fst
+    from lib.progs import CORPUS
+    rng = ctx.rng
+    for src in SWEEP_PROGS + [CORPUS[-1]]:
+        try:
+            probe = fst.FST(src, 'exec')
+        except Exception as e:
+            ctx.broken.append({'kind': 'harness', 'name': 'slice_sweep', 'detail': f'{src!r}: {e!r}'[:200]})
+            continue
+        jobs = []
+        for f in probe.walk(True):
+            path = probe.child_path(f)
+            for field in f.a._fields:
+                v = getattr(f.a, field, None)
+                if isinstance(v, list) and v and isinstance(v[0], ast.AST) and field not in ('body', 'orelse', 'finalbody', 'handlers', 'cases', 'type_ignores'):
+                    for i in range(len(v)):
+                        jobs += [(path, 'del', field, i), (path, 'ins', field, i), (path, 'rep', field, i)]
+            if isinstance(f.a, (ast.expr, ast.pattern)):
+                jobs += [(path, 'unpar', None, None), (path, 'par', None, None)]
+        for path, how, field, i in jobs:
+            for schedule in ('warm', 'cold'):
+                root = fst.FST(src, 'exec')
+                f = root.child_from_path(path)
+                if schedule == 'warm':
+                    for g in root.walk(True):
+                        for name in CACHED_QUERIES:
+                            q(g, name)
+                rec = {'start_src': src, 'node': repr(f), 'how': how, 'field': field, 'idx': i, 'schedule': schedule}
+                try:
+                    if how == 'del':
+                        f.put_slice(None, i, i + 1, field, norm=True)    # without norm a MatchOr of one pattern / a comprehension without generators may be left
+                    elif how == 'ins':
+                        elt = getattr(f, field)[i].copy()
+                        f.put_slice(elt, i, i, field, one=True)
+                    elif how == 'rep':
+                        elt = getattr(f, field)[(i + 1) % len(getattr(f.a, field))].copy()
+                        f.put_slice(elt, i, i + 1, field, one=True)
+                    elif how == 'unpar':
+                        if not f.unpar():
+                            continue
+                    else:
+                        f.par(True)
+                except Exception as e:
+                    ctx.dist[f'sweep:{how}:refused'] = ctx.dist.get(f'sweep:{how}:refused', 0) + 1
+                    continue
+                ctx.tick(('sweep', src, str(path), how, field, i, schedule), f'sweep:{how}')
+                try:
+                    ast.parse(root.src)
+                except SyntaxError:
+                    continue     # whether the result is valid source is C01 / C09
+                bad = compare_with_fresh(root, rng, 0)
+                if bad:
+                    ctx.violation(f'query|{bad.get("query", bad["why"][:30])}|{bad.get("node", "")}|sweep:{how}',
+                                  'a query on the edited tree answers differently from the same query on a tree freshly built from its source',
+                                  {**rec, 'src_now': root.src, **bad})
+                    break
+
+
 def stage_cache_corr(ctx: Ctx):
     """models/Cache.v vs the real loc cache on real nodes: ask / offset histories, answers must agree"""
     import fst
@@ -307,6 +377,7 @@ def run(ctx: Ctx):
     progs = [p for p in corpus(ctx.rng, gen=ctx.scale(20, 150)) if len(p) < 1500]
     run_guarded(ctx, stage_oracle, progs)
     run_guarded(ctx, stage_accessor_caches, progs)
+    run_guarded(ctx, stage_slice_sweep)
 
 
 def replay(path):
